@@ -46,7 +46,8 @@ def gen(rng, n_tus=None, n_platforms=None, outside=False, missing=0.0, toggles=T
     updir: some includes are spelled with a leading `../` (`"../inc2/x.h"`): such a name is looked up beside the
     includer and then relative to every search directory, like any other.
     links: a header outside the root (and one inside it) gets a second name inside the root through a file symlink, and
-    the first translation unit includes it under that name.
+    the first translation unit includes it under that name.  links="side": each of the two headers also includes
+    "lk_side?.h", which exists beside the link and beside the link's target (different contents).
     outside_tu: the last translation unit lives outside the analysis root (a generated source) and includes in-root
     headers.
     dirlinks: beside the first translation unit sits a symbolic link `up_inc` to the directory inc/below, and the unit
@@ -190,6 +191,15 @@ def gen(rng, n_tus=None, n_platforms=None, outside=False, missing=0.0, toggles=T
                      ["chain", [["ifdef", "D_OLINK", [["code"]]], ["else", None, [["code"]]]]],
                      ["chain", [["ifdef", "D_ILINK", [["code"]]], ["else", None, [["code"]]]]]]
             link_map = {f"{d}/olink.h": "@out/ext/olinked.h", f"{d}/ilink.h": "inc/ilinked.h"}
+            if links == "side":
+                # the linked headers include "lk_side.h"; a compiler looks for it beside the NAME the header was opened
+                # by (the link's directory), not beside the link's target
+                for tgt, tag in (("@out/ext", "O"), ("inc", "I")):
+                    files[f"{tgt}/{'olinked' if tag == 'O' else 'ilinked'}.h"].append(["include", "q", f"lk_side{tag}.h"])
+                    files[f"{tgt}/lk_side{tag}.h"] = [["code"], ["code"], ["define", f"D_SIDE{tag}_TARGETDIR", None]]
+                    files[f"{d}/lk_side{tag}.h"] = [["code"], ["define", f"D_SIDE{tag}_LINKDIR", None], ["code"]]
+                    for mac in (f"D_SIDE{tag}_TARGETDIR", f"D_SIDE{tag}_LINKDIR"):
+                        body.append(["chain", [["ifdef", mac, [["code"]]], ["else", None, [["code"]]]]])
         if dirlinks and t == 0 and not d.startswith("@out"):
             files["inc/dl_hdr.h"] = [["code"], ["define", "D_DLNK", None], ["code"]]
             files[f"{d}/dl_hdr.h"] = [["code"], ["code"], ["define", "D_DLNK_DECOY", None]]
